@@ -636,6 +636,44 @@ fn corr_overlaps(rng: &mut Rng, stats: &mut Stats, n: u64) {
         stats.count(&format!("ovl.kind{}.{}{}", kind, if res.is_some() { "some" } else { "none" }, if line_like { ".line" } else { "" }));
         println!("{}", line);
     }
+    // the linear fall-back (private; hook H6) against its generated definition: the roots the external solver returned inside this
+    // very call (hook H3) and the answers of `solve_basis_for_t` for every ray hit are handed over as tables
+    use flo_curves::bezier::{verif_intersections_with_linear_section, curve_intersects_ray};
+    for it in 0..(n / 2 + 200) {
+        let c1 = rc(rng);
+        let cv1 = to_curve(&c1);
+        let t0 = rng.r(0.0, 0.95);
+        let dl = 10f64.powf(rng.r(-3.5, -1.0)).min(1.0 - t0);
+        let lin = cv1.section(t0, t0 + dl);
+        let target = cv1.point_at_pos(t0 + dl * rng.f());
+        let mut c2 = rc(rng);
+        let cv2 = to_curve(&c2);
+        let u = rng.r(0.2, 0.8);
+        let shift = target - cv2.point_at_pos(u) + if it % 5 == 0 { Coord2(rng.r(-0.02, 0.02), rng.r(-0.02, 0.02)) } else { Coord2(0.0, 0.0) };
+        for q in c2.iter_mut() { *q = *q + shift; }
+        let cv2 = to_curve(&c2);
+        let (ua, ub) = if it % 3 == 0 { (0.0, 1.0) } else { ((u - rng.r(0.01, 0.3)).max(0.0), (u + rng.r(0.01, 0.3)).min(1.0)) };
+        let cur = cv2.section(ua, ub);
+        let acc = [0.01, 0.001, 0.05][(it % 3) as usize];
+        let _ = flo_curves::bezier::verif_roots::take();
+        let res = verif_intersections_with_linear_section(&lin, &cur, acc);
+        let (poly, raw) = flo_curves::bezier::verif_roots::take().unwrap_or(((f64::NAN, f64::NAN, f64::NAN, f64::NAN), vec![]));
+        // the ray hits themselves (same call, recomputed) for the questions put to `solve_basis_for_t`
+        let ray = (lin.start_point(), lin.end_point());
+        let hits = curve_intersects_ray(&cur, &ray);
+        let (l1, (l2, l3), l4) = (lin.start_point(), lin.control_points(), lin.end_point());
+        let mut line = format!("C02 lin R {} {} {} {} {} {} {} {} #{} {} #{}", hc(&c1), hc(&c2), hx(t0), hx(t0 + dl), hx(ua), hx(ub), hx(acc), hxs(&[poly.0, poly.1, poly.2, poly.3]), raw.len(), hxs(&raw), hits.len());
+        for (_, _, pos) in hits.iter() {
+            let rx = solve_basis_for_t(l1.0, l2.0, l3.0, l4.0, pos.0);
+            let ry = solve_basis_for_t(l1.1, l2.1, l3.1, l4.1, pos.1);
+            line += &format!(" {} {} #{} {} #{} {}", hx(pos.0), hx(pos.1), rx.len(), hxs(&rx), ry.len(), hxs(&ry));
+        }
+        line += &format!(" | #{}", res.len());
+        for (a, b) in res.iter() { line += &format!(" {} {}", hx(*a), hx(*b)); }
+        stats.case(&format!("lin {}", it), !res.is_empty());
+        stats.count(&format!("lin.hits{}.answers{}", hits.len().min(3), res.len().min(3)));
+        println!("{}", line);
+    }
 }
 
 
